@@ -148,6 +148,46 @@ def run(ck):
             add({"kind": "closer", "S": [idx[l.name] for l in sl], "t": idx[t.name], "r": r_})
             n_closer += 1
     ck.nontrivial(("closer", n_closer))
+    # ---- Factory.get_solver: solver doubles that only declare LOGICS, registered in the environment's factory
+    from pysmt.solvers.solver import Solver as _Solver, SolverOptions as _SolverOptions
+    from pysmt.exceptions import NoSolverAvailableError
+
+    def double(k, lgs):
+        def __init__(self, environment, logic, **options):
+            _Solver.__init__(self, environment=environment, logic=logic, **options)
+
+        def _exit(self):
+            pass
+        return type("Double%d" % k, (_Solver,), {"LOGICS": list(lgs), "__init__": __init__, "_exit": _exit, "IDX": k, "OptionsClass": _SolverOptions})
+    n_factory = 0
+    nf = 2500 if quick else 30000
+    flat = [l for sl in supported_lists for l in sl]
+    for _ in range(nf):
+        nsol = ck.rng.choice([1, 2, 2, 3, 3, 4])
+        tables = [ck.rng.sample(ck.rng.choice(supported_lists + [flat]), ck.rng.choice([1, 1, 2, 3])) for _k in range(nsol)]
+        classes = [double(k + 1, lg) for k, lg in enumerate(tables)]
+        names = ["double%d" % (k + 1) for k in range(nsol)]
+        prefs = ck.rng.sample(range(1, nsol + 1), ck.rng.choice([nsol, nsol, max(1, nsol - 1)]))
+        t = ck.rng.choice(flat + logics[:: 5])
+        name = ck.rng.choice([0, 0, 0, 1, nsol, -1])
+        fac = env.factory
+        saved = (dict(fac._all_solvers), dict(fac.preferences))
+        fac._all_solvers = dict(zip(names, classes))
+        fac.set_solver_preference_list(["double%d" % k for k in prefs])
+        rs = rl = 0
+        try:
+            inst = fac.get_solver(name=(None if name == 0 else ("missing" if name == -1 else names[name - 1])), logic=t)
+            rs, rl = type(inst).IDX, idx[inst.logic.name]
+        except NoSolverAvailableError:
+            pass
+        except NoLogicAvailableError:
+            pass
+        finally:
+            fac._all_solvers, fac.preferences = saved
+        add({"kind": "factory", "solvers": [[idx[l.name] for l in lg] for lg in tables], "prefs": prefs, "name": name, "t": idx[t.name],
+             "rs": rs, "rl": rl})
+        n_factory += 1
+    ck.nontrivial(("factory", n_factory))
     verdicts, st = tlc.validate_events("Trace_Pure", evs, constants={"Seed": 0, "Cap": 8}, header=hdr)
     ck.add_tlc(st)
     byid = {e["id"]: e for e in evs}
@@ -162,11 +202,15 @@ def run(ck):
             if e["kind"] == "detect":
                 sig["shape"] = shape(e["f"])
                 sig["logic"] = e["logic"]["name"]
+            elif e["kind"] == "factory":
+                sig["solvers"] = [[items[k - 1]["name"] for k in sv] for sv in e["solvers"]]
+                sig["t"] = items[e["t"] - 1]["name"]
+                sig["name"] = e["name"]
             elif e["kind"] in ("closer", "mostgeneric"):
                 sig["S"] = [items[k - 1]["name"] for k in e["S"]][:10]
                 sig["t"] = items[e.get("t", 1) - 1]["name"]
-            ck.violation(sig, {"event": e if e["kind"] in ("detect", "closer", "mostgeneric") else {"kind": e["kind"]}})
-    ck.part("events", detect=len(terms), named_logics=len(logics), theories=len(allt), closer=n_closer)
+            ck.violation(sig, {"event": e if e["kind"] in ("detect", "closer", "mostgeneric", "factory") else {"kind": e["kind"]}})
+    ck.part("events", detect=len(terms), named_logics=len(logics), theories=len(allt), closer=n_closer, factory_selections=n_factory)
     ck.sample({"kind": "detect", "f": evs[0]["f"], "logic": evs[0]["logic"]["name"]})
     ck.sample({"kind": "closer", "event": [e for e in evs if e["kind"] == "closer"][0]})
     ck.cov["exhaustive"] = not quick
